@@ -285,7 +285,10 @@ def h2_response_headers(status: int, hk: int, date: bool, server: bool, info: bo
 from vf.stubs.b import Conn, GatedApp  # noqa: E402
 from vf.stubs.clients import H2Client, h1_parse, h1_request  # noqa: E402
 
-S_STATUS = [200, 201, 204, 304, 404, 500, 599]
+from vf.rt import MODE as _MODE  # noqa: E402
+
+_QUICK = _MODE["tier"] != "thorough"
+S_STATUS = [200, 204, 304, 599] if _QUICK else [200, 201, 204, 304, 404, 500, 599]
 S_CHUNKS = [[0], [1], [0, 1, 0], [16384, 16385], [70000], [1, 65536, 3], [5, 0, 5]]
 S_HEADERS = ["none", "content-length", "repeated x-a", "content-type + x-b"]
 _BLOB = bytes((i * 13 + 5) % 251 for i in range(70000))
@@ -329,7 +332,7 @@ def _check_headers(got, app_headers) -> str:
     witnesses=[{"si": 0, "hi": 1, "ci": 3, "head": False, "v10": False}, {"si": 2, "hi": 0, "ci": 1, "head": False, "v10": True}, {"si": 0, "hi": 1, "ci": 4, "head": True, "v10": False}],
     budget={"quick": 150, "thorough": 600},
     per_path=120,
-    bounds="HTTP/1 responses: 7 statuses x 4 header lists (none, content-length, repeated names, two headers) x 7 chunkings (empty chunks, 1 byte, around 16384/65536, 70000) x GET/HEAD x HTTP/1.1/1.0, parsed by an independent h11 client",
+    bounds="HTTP/1 responses: 4 (thorough 7) statuses x 4 header lists (none, content-length, repeated names, two headers) x 7 chunkings (empty chunks, 1 byte, around 16384/65536, 70000) x GET/HEAD x HTTP/1.1/1.0, parsed by an independent h11 client",
     encodes=["hypercorn/protocol/h11.py::H11Protocol.stream_send", "hypercorn/protocol/h11.py::H11Protocol._send_h11_event", "hypercorn/protocol/http_stream.py::HTTPStream.app_send", "hypercorn/utils.py::suppress_body"],
     stubs=["tier B runtime"],
 )
@@ -348,6 +351,8 @@ def h1_response_delivery(si: int, hi: int, ci: int, head: bool, v10: bool) -> bo
     no_body = ref_suppress(method, status)
     if status in (204, 304) and hi == 1 and sum(chunks) > 0:
         return done(True, skipped="a content-length on a bodiless status is the application's own inconsistency")
+    if _QUICK and v10 and hi in (2, 3):
+        return done(True, skipped="quick tier: HTTP/1.0 with two of the four header lists")
     steps, app_headers, body = _resp_steps(status, hi, chunks, no_body)
     conn = Conn(None, make_config())
     app = GatedApp(conn.ctx, lambda scope, idx: steps, gated=False)
@@ -379,24 +384,26 @@ def h1_response_delivery(si: int, hi: int, ci: int, head: bool, v10: bool) -> bo
     return done(why == "", status=status, headers=S_HEADERS[hi], chunks=chunks, method=method, version="1.0" if v10 else "1.1", why=why)
 
 
-PACES = ["acknowledges stream and connection at once", "acknowledges on the connection only (huge stream windows)", "2000-byte initial window, acknowledges at once", "acknowledges only when the server has stalled"]
+PACES = ["acknowledges stream and connection at once", "acknowledges on the connection only (huge stream windows)", "2000-byte initial window, acknowledges at once", "acknowledges only when the server has stalled",
+         "initial window exactly the size of the body (0 for a bodiless response), never acknowledges"]
 
 
 @harness(
     "C02",
-    dom={"si": (0, len(S_STATUS) - 1), "hi": (0, 3), "ci": (0, len(S_CHUNKS) - 1), "head": "bool", "pace": (0, 3), "h2c": "bool"},
+    dom={"si": (0, len(S_STATUS) - 1), "hi": (0, 3), "ci": (0, len(S_CHUNKS) - 1), "head": "bool", "pace": (0, 4), "h2c": "bool", "tr": (0, 2)},
     split={"pace": "each", "ci": "each"},
-    witnesses=[{"si": 0, "hi": 1, "ci": 4, "head": False, "pace": 1, "h2c": False}, {"si": 3, "hi": 2, "ci": 5, "head": True, "pace": 3, "h2c": True}],
+    witnesses=[{"si": 0, "hi": 1, "ci": 4, "head": False, "pace": 1, "h2c": False, "tr": 0}, {"si": 3, "hi": 1, "ci": 5, "head": True, "pace": 3, "h2c": False, "tr": 0},
+               {"si": 0, "hi": 0, "ci": 3, "head": False, "pace": 2, "h2c": False, "tr": 1}],
     budget={"quick": 200, "thorough": 900},
     per_path=120,
-    bounds="HTTP/2 responses: 7 statuses x 4 header lists x 7 chunkings x GET/HEAD x 4 client paces (acks both levels, connection level only, 2000-byte initial window, acks only when stalled) x h2 via ALPN or via h2c upgrade, parsed by an independent h2 client that enforces flow control",
+    bounds="HTTP/2 responses: 4 (thorough 7) statuses x 4 header lists x 7 chunkings x GET/HEAD x 5 client paces (acks both levels, connection level only, 2000-byte initial window, acks only when stalled, window exactly the body size and no acks at all) x h2 via ALPN or via h2c upgrade x {no trailers, trailers to a client that sent te: trailers, trailers to a client that did not}, parsed by an independent h2 client that enforces flow control",
     encodes=["hypercorn/protocol/h2.py::H2Protocol.stream_send", "hypercorn/protocol/h2.py::H2Protocol._send_data", "hypercorn/protocol/h2.py::H2Protocol.send_task", "hypercorn/protocol/h2.py::H2Protocol._window_updated",
              "hypercorn/protocol/h2.py::H2Protocol.initiate", "hypercorn/protocol/http_stream.py::HTTPStream.app_send"],
     stubs=["tier B runtime"],
 )
-def h2_response_delivery(si: int, hi: int, ci: int, head: bool, pace: int, h2c: bool) -> bool:
+def h2_response_delivery(si: int, hi: int, ci: int, head: bool, pace: int, h2c: bool, tr: int) -> bool:
     """
-    pre: DOM(h2_response_delivery, si=si, hi=hi, ci=ci, head=head, pace=pace, h2c=h2c)
+    pre: DOM(h2_response_delivery, si=si, hi=hi, ci=ci, head=head, pace=pace, h2c=h2c, tr=tr)
     post: _
     """
     enter()
@@ -404,18 +411,29 @@ def h2_response_delivery(si: int, hi: int, ci: int, head: bool, pace: int, h2c: 
     hi = conc(hi, 0, 3)
     chunks = S_CHUNKS[conc(ci, 0, len(S_CHUNKS) - 1)]
     head = True if head else False
-    pace = conc(pace, 0, 3)
+    pace = conc(pace, 0, 4)
     h2c = True if h2c else False
+    tr = conc(tr, 0, 2)
     method = b"HEAD" if head else b"GET"
     no_body = ref_suppress(method.decode(), status)
+    if tr and (h2c or (_QUICK and (head or hi not in (0, 1)))):
+        return done(True, skipped="trailers: not over h2c (the upgrade request cannot carry te through the h2 client library); quick tier: GET with two of the header lists")
     if status in (204, 304) and hi == 1 and sum(chunks) > 0:
         return done(True, skipped="a content-length on a bodiless status is the application's own inconsistency")
     if head and h2c:
         return done(True, skipped="the h2 client library cannot know that the upgraded stream 1 was a HEAD request and rejects its content-length")
+    if _QUICK and ((h2c and pace != 0) or (head and hi != 1)):
+        return done(True, skipped="quick tier: h2c only with the eager client, HEAD only with a content-length")
     steps, app_headers, body = _resp_steps(status, hi, chunks, no_body)
     steps = ["recv"] + steps[1:]
-    window = {0: None, 1: 1000000, 2: 2000, 3: None}[pace]
+    TRAILERS = [(b"x-checksum", b"abc123"), (b"x-t", b"2")]
+    if tr:
+        steps[1][1]["trailers"] = True
+        steps.append(("send", {"type": "http.response.trailers", "headers": list(TRAILERS), "more_trailers": False}))
+    window = {0: None, 1: 1000000, 2: 2000, 3: None, 4: 0 if no_body else len(body)}[pace]
     client = H2Client(initial_window=window, auto_ack=pace in (0, 2), upgrade=h2c)
+    if pace == 4 and not no_body and len(body) > 60000:
+        client.window_update(0, 100000)  # credit for the whole body up front on the connection level too
     conn = Conn(None, make_config(), alpn=None if h2c else "h2")
     app = GatedApp(conn.ctx, lambda scope, idx: steps, gated=False)
     conn.proto.app = app
@@ -433,7 +451,7 @@ def h2_response_delivery(si: int, hi: int, ci: int, head: bool, pace: int, h2c: 
         client.feed(hd[2])
         client._s(1)
     else:
-        client.request(1, method, b"/r", end_stream=True)
+        client.request(1, method, b"/r", headers=[(b"te", b"trailers")] if tr == 1 else None, end_stream=True)
         conn.feed(client.take())
     for _ in range(120):
         client.feed(conn.take())
@@ -462,8 +480,14 @@ def h2_response_delivery(si: int, hi: int, ci: int, head: bool, pace: int, h2c: 
         why = f"body of {len(st.data)} bytes, expected {0 if no_body else len(body)}"
     else:
         why = _check_headers(st.headers, app_headers)
+    if not why and tr == 1 and st.trailers != TRAILERS:
+        why = f"trailers {st.trailers!r} reached a client that sent te: trailers, the application sent {TRAILERS!r}"
+    if not why and tr != 1 and st.trailers:
+        why = f"trailers {st.trailers!r} sent to a client that did not ask for them"
     if not why and app.instances and app.instances[0].send_errors:
         why = f"send raised {app.instances[0].send_errors!r}"
+    if not why and app.instances and not app.instances[0].finished:
+        why = f"application still blocked at step {app.instances[0].step}"
     if not why and conn.sched.errors:
         why = "exception escaped a task: %r" % (conn.sched.errors[0],)
-    return done(why == "", status=status, headers=S_HEADERS[hi], chunks=chunks, method=method, pace=PACES[pace], h2c=h2c, why=why)
+    return done(why == "", status=status, headers=S_HEADERS[hi], chunks=chunks, method=method, pace=PACES[pace], h2c=h2c, trailers=["none", "to a te: trailers client", "to a client without te"][tr], why=why)
